@@ -9,6 +9,8 @@ import Poupool.Proofs.EcoLoopStep
 import Poupool.Proofs.EcoDayInv
 import Poupool.Proofs.EcoDayHeat
 import Poupool.Proofs.EcoDayHeat2
+import Poupool.Proofs.EcoDayHeat3
+import Poupool.Proofs.EcoDayHeat4
 
 namespace Poupool.Eco
 open Poupool.Generated
@@ -501,7 +503,14 @@ example : exHeat.phase = .waiting ∧ exHeat.full = true ∧ InterludeOK 1000 ex
    (the invariants `Inv` / `DayInv` are re-established for the shadows only until the next reset), an interlude that spans
    the reset, and a lower slack below 180 s for `period ≥ 6`: `slackLoHeat` adds the slack of the plan in progress at `heat`
    to the slack of the plan made after the interlude (each with one poll of overshoot per period), below 180 s only for
-   `period ≤ 5`; when the quota is still reachable after the interlude the slack is `slackPlan < 180 s` for every setting. -/
+   `period ≤ 5`; when the quota is still reachable after the interlude the slack is `slackPlan < 180 s` for every setting.
+   UPDATE — sections (g), (h) below: heating days after the first one of the run and any number of heating days are covered
+   (`C10_quota_heating_days_partial`: EVERY whole day of a run with at most one complete interlude per day); several
+   interludes in one day are covered with bounds in terms of the pump-on time left unaccounted by the interludes
+   (`C10_quota_heating_days_multi_partial`), and the statement above is FALSE as it stands for three or more interludes per
+   day (`C10_quota_monitor_upper_three_interludes_counterexample`).  Still missing: an interlude that spans the reset (the
+   model then flags the day that starts during the interlude as `plain`), a closed form of the unaccounted time for `k`
+   interludes per day, the lower slack below 180 s for `period ≥ 6` on heating days. -/
 
 /-- C10, a whole day with one complete heating interlude (partial, see the comment above).  Any settings the dispatcher
 lets through, any tick-only history `pre` (every handler at most `eps ≤ 0.6 s` late) that ends in a whole day in
@@ -663,5 +672,241 @@ example : 1 ≤ lateParams.dailyS ∧ lateParams.start < nextResetAt lateParams.
     ∧ (ecoFinal 1000 (Loop.start 1000 lateParams).1 (exPre ++ interludeEvs 1000000 exPolls 2000000 700 0 0 ++ exPost)).onToday = 87002010
     ∧ (ecoFinal 1000 (Loop.start 1000 lateParams).1 (exPre ++ interludeEvs 1000000 exPolls 2000000 700 0 0 ++ exPost)).pumpOn = false := by
   decide
+
+/-! ### (g) any number of heating days (Proofs/EcoDayHeat3.lean)
+
+The finished days never influence the behaviour (`run_withDays`), so the invariants of the tick-only proofs are kept
+*modulo the finished days* (`Good`): they hold for the state with its list of finished days emptied.  The poll that sees the
+reset re-establishes them whatever happened during the day (`reset_good`): a heating day is followed by days to which the
+day theorems apply again.  A run is described by *segments* `Seg`: a stretch of timer expiries `pre`, then one complete
+interlude (`interludeEvs dt polls dt' jd j1 j2`).  `SegsOK eps s gs` are the side conditions, segment after segment: every
+tick at most `eps` late; when `heat` arrives no interlude has taken place yet since the last reset (`gPlain`, i.e. at most ONE
+interlude per day), the pool is in eco_waiting / eco_normal, the interlude is well-formed (`InterludeOK`) and over before the
+reset.  The run is `segsEvs gs ++ post` with a tick-only tail `post`. -/
+
+/-- C10, EVERY whole day of a run with any number of heating days, at most one complete interlude per day, each over before
+the reset (partial only in that shape, see below).  Any settings the dispatcher lets through, every handler at most
+`eps ≤ 0.6 s` late.  Then every finished day but the first (which starts when eco is entered) starts at a reset, and every
+whole day `r` of the run satisfies, in the form of the monitor of checks/c10.py,
+  `min daily 24h - slackLoHeat ≤ r.on`;
+  a day without interlude:  `min daily 24h - slackLo ≤ r.on ≤ min daily 24h + slackHi`  (the bounds of `C10_quota_whole_day`);
+  a day with an interlude: it is the day of one of the segments `g` — its record lies right above the days finished when the
+  `heat` of `g` arrived — and with `c` = the `eco_compute` state in which that interlude ended
+     `r.on ≤ max (min daily 24h) c.onToday + slackHiHeat`,
+  and in the late regime of the open finding (`daily ≤ c` accounted duration)  `daily ≤ r.on`, `c.onToday ≤ r.on ≤ c.onToday + 5 s + eps`.
+`slackHi ≤ slackLo < 180 s`, `slackHiHeat < 180 s` for every period count; `slackLoHeat < 180 s` for `period ≤ 5`.
+Still missing: several interludes within one day, an interlude that spans the reset (or that starts in the `eco_compute` /
+`eco_tank` phases, where `heat` is ignored by the model), a lower slack below 180 s for `period ≥ 6` on heating days. -/
+theorem C10_quota_heating_days_partial (eps : Int) (p : Params) (gs : List Seg) (post : List Ev) (he : 0 ≤ eps) (he2 : eps ≤ 600000)
+    (hd : 1 ≤ p.dailyS) (hp1 : 1 ≤ p.period) (hp2 : p.period ≤ 10) (hel : 0 ≤ p.elapsedS)
+    (hs : p.start < nextResetAt p.start p.resetHour)
+    (hok : SegsOK eps (Loop.start eps p).1 gs) (hpost : ∀ e ∈ post, TickOK eps e) :
+    (∀ r ∈ (ecoFinal eps (Loop.start eps p).1 (segsEvs gs ++ post)).days.dropLast, r.full = true)
+    ∧ (∀ r ∈ (ecoFinal eps (Loop.start eps p).1 (segsEvs gs ++ post)).days, r.full = true →
+        min (p.dailyS * US) DAY - slackLoHeat p.period eps ≤ r.on
+        ∧ (r.plain = true →
+            min (p.dailyS * US) DAY - slackLo p.period eps ≤ r.on ∧ r.on ≤ min (p.dailyS * US) DAY + slackHi p.period eps)
+        ∧ (r.plain = false → ∃ gs1 g gs2, gs = gs1 ++ g :: gs2
+            ∧ (r :: (ecoFinal eps (Loop.start eps p).1 (segsEvs gs1 ++ g.pre)).days)
+                <:+ (ecoFinal eps (Loop.start eps p).1 (segsEvs gs ++ post)).days
+            ∧ r.on ≤ max (min (p.dailyS * US) DAY) (ecoFinal eps (Loop.start eps p).1 (segsEvs gs1 ++ g.evs)).onToday
+                + slackHiHeat p.period eps
+            ∧ (p.dailyS * US ≤ (ecoFinal eps (Loop.start eps p).1 (segsEvs gs1 ++ g.evs)).eco.filtration.duration →
+                p.dailyS * US ≤ r.on
+                ∧ (ecoFinal eps (Loop.start eps p).1 (segsEvs gs1 ++ g.evs)).onToday ≤ r.on
+                ∧ r.on ≤ (ecoFinal eps (Loop.start eps p).1 (segsEvs gs1 ++ g.evs)).onToday + EcoConfig.computeDelayUs + eps)))
+    ∧ slackHi p.period eps ≤ slackLo p.period eps ∧ slackLo p.period eps < 180 * US
+    ∧ slackHiHeat p.period eps < 180 * US ∧ (p.period ≤ 5 → slackLoHeat p.period eps < 180 * US) := by
+  obtain ⟨hseq, hrec⟩ := heat_days_start eps p gs post he he2 hd hp1 hp2 hel hs hok hpost
+  have hsl := slack_le_180 p.period eps he he2 hp1 hp2
+  obtain ⟨_, _, _, _, _, c6, _, c8⟩ := slack_heat_values p.period eps he he2 hp1 hp2
+  have hle := slackLo_le_heat p.period eps he hp1
+  refine ⟨hseq, ?_, hsl.1, hsl.2.2.1, c6, fun h5 => (c8 h5).2⟩
+  intro r hr hfull
+  rcases hrec r hr with ⟨hpl, hb⟩ | ⟨gs1, g, gs2, h1, h2, hpl, hb⟩
+  · obtain ⟨b1, b2⟩ := hb hfull
+    refine ⟨by omega, fun _ => ⟨b1, b2⟩, fun hn => ?_⟩
+    rw [hpl] at hn; cases hn
+  · obtain ⟨b1, b2, b3⟩ := hb hfull
+    refine ⟨b1, fun hp => ?_, fun _ => ⟨gs1, g, gs2, h1, h2, b2, b3⟩⟩
+    rw [hpl] at hp; cases hp
+
+/-- the hypotheses hold on a run with TWO heating days (`hdParams`, `hdSeg1`, `hdSeg2`, `hdPost` in Proofs/EcoDayHeat4.lean:
+quota 1 s, eco entered at 23:59:50, an interlude in the first eco_waiting of day 1, 8632 polls of eco_waiting until the
+reset — executed symbolically by `late_polls`, the side conditions are then decided on the resulting state —, the same
+interlude in the first eco_waiting of day 2, two more ticks) … -/
+example : (0:Int) ≤ 1000 ∧ (1000:Int) ≤ 600000 ∧ 1 ≤ hdParams.dailyS ∧ 1 ≤ hdParams.period ∧ hdParams.period ≤ 10
+    ∧ 0 ≤ hdParams.elapsedS ∧ hdParams.start < nextResetAt hdParams.start hdParams.resetHour
+    ∧ SegsOK 1000 (Loop.start 1000 hdParams).1 [hdSeg1, hdSeg2] ∧ (∀ e ∈ hdPost, TickOK 1000 e) :=
+  ⟨by decide, by decide, by decide, by decide, by decide, by decide, by decide, hd_segsOK, by decide⟩
+
+/-- … its finished days are the partial day 0 and the whole heating day 1 (pump-on time 87.002 s for a quota of 1 s: the late
+regime; 82.002 s when the delay expired); day 2 is running, not plain, 87.00201 s of pump-on time, pump stopped … -/
+example : ((ecoFinal 1000 (Loop.start 1000 hdParams).1 (segsEvs [hdSeg1, hdSeg2] ++ hdPost)).days.map fun r => (r.on, r.full, r.plain))
+      = [(87002000, true, false), (0, false, true)]
+    ∧ (ecoFinal 1000 (Loop.start 1000 hdParams).1 (segsEvs [hdSeg1] ++ hdSeg2.pre)).days.length = 2
+    ∧ (ecoFinal 1000 (Loop.start 1000 hdParams).1 (segsEvs [hdSeg1, hdSeg2] ++ hdPost)).gPlain = false
+    ∧ (ecoFinal 1000 (Loop.start 1000 hdParams).1 (segsEvs [hdSeg1, hdSeg2] ++ hdPost)).onToday = 87002010
+    ∧ (ecoFinal 1000 (Loop.start 1000 hdParams).1 (segsEvs [hdSeg1, hdSeg2] ++ hdPost)).pumpOn = false := by
+  have e1 : (Loop.start 1000 hdParams).1 = hdStart := rfl
+  have e2 : segsEvs [hdSeg1] ++ hdSeg2.pre = hdSeg1.evs ++ hdSeg2.pre := by simp [segsEvs]
+  rw [e1, hd_final, e2, hd_pre2]
+  decide
+
+/-- … and the theorem applied to it: every whole day of that run is within the bounds -/
+example : ∀ r ∈ (ecoFinal 1000 (Loop.start 1000 hdParams).1 (segsEvs [hdSeg1, hdSeg2] ++ hdPost)).days, r.full = true →
+    min (hdParams.dailyS * US) DAY - slackLoHeat hdParams.period 1000 ≤ r.on :=
+  fun r hr hf => ((C10_quota_heating_days_partial 1000 hdParams [hdSeg1, hdSeg2] hdPost (by decide) (by decide) (by decide)
+    (by decide) (by decide) (by decide) (by decide) hd_segsOK (by decide)).2.1 r hr hf).1
+
+/-! ### (h) several interludes within one day (Proofs/EcoDayHeat3.lean)
+
+`SegsOK2` is `SegsOK` without the condition that no interlude has taken place yet that day.  An interlude leaves pump-on time
+unaccounted (`C10_heating_interlude_accounting`: up to `heatLoss = 70 s + 3 eps`, plus the poll dropped by `heat` and the
+compute delay afterwards), and the plan made afterwards only looks at the ACCOUNTED duration: with several interludes per
+day the unaccounted time adds up, and the pump-on time of the day exceeds the quota by it.  The bounds of a day with several
+interludes are therefore stated with `U = c.onToday - c.eco.filtration.duration`, the pump-on time not accounted when the
+day's LAST interlude ends in the `eco_compute` state `c` (one interlude: `U ≤ 87 s + …`, which is where `slackHiHeat` comes
+from); the monitor form `max (min daily 24h) c.onToday + 180 s` does not hold for three or more interludes per day. -/
+
+/-- C10, EVERY whole day of a run with any number of complete interludes per day, each over before the reset (partial: see
+below).  Same hypotheses as `C10_quota_heating_days_partial` with `SegsOK2`.  Every whole day `r` of the run:
+ * no interlude: `min daily 24h - slackLo ≤ r.on ≤ min daily 24h + slackHi` (also after days with several interludes);
+ * otherwise `r` is the day whose LAST interlude is that of a segment `g` (its record lies right above the days finished when
+   the `heat` of `g` arrived); with `c` the `eco_compute` state in which that interlude ended, `NR` the reset instant and
+   `U = c.onToday - c accounted`:
+     quota not exceeded by more than a poll at `c`:
+        `min daily (c accounted + NR - c.now) - slackPlan + U ≤ r.on ≤ daily + U + 15 s + (6 period + 10) eps`
+        and `r.on ≤ c.onToday + (NR - c.now) + 15 s + 2 eps`;
+     quota used up at `c`:  `c.onToday ≤ r.on ≤ c.onToday + 5 s + eps`;
+   and if that interlude was also the first of its day (`gPlain` when its `heat` arrived) the monitor bounds of
+   `C10_quota_heating_days_partial` hold.
+Still missing: a bound of `U` in terms of the number `k` of interludes of the day (each adds at most about
+`heatLoss + 10 s + 5 s + lateness`, proved only for `k = 1`), hence closed lower / upper slacks `(k + 1) * slackPlan`,
+`k * 87 s + …` for a day with `k` interludes; an interlude that spans the reset. -/
+theorem C10_quota_heating_days_multi_partial (eps : Int) (p : Params) (gs : List Seg) (post : List Ev) (he : 0 ≤ eps)
+    (he2 : eps ≤ 600000) (hd : 1 ≤ p.dailyS) (hp1 : 1 ≤ p.period) (hp2 : p.period ≤ 10) (hel : 0 ≤ p.elapsedS)
+    (hs : p.start < nextResetAt p.start p.resetHour)
+    (hok : SegsOK2 eps (Loop.start eps p).1 gs) (hpost : ∀ e ∈ post, TickOK eps e) :
+    (∀ r ∈ (ecoFinal eps (Loop.start eps p).1 (segsEvs gs ++ post)).days.dropLast, r.full = true)
+    ∧ (∀ r ∈ (ecoFinal eps (Loop.start eps p).1 (segsEvs gs ++ post)).days, r.full = true →
+        (r.plain = true →
+            min (p.dailyS * US) DAY - slackLo p.period eps ≤ r.on ∧ r.on ≤ min (p.dailyS * US) DAY + slackHi p.period eps)
+        ∧ (r.plain = false → ∃ gs1 g gs2, gs = gs1 ++ g :: gs2
+            ∧ (r :: (ecoFinal eps (Loop.start eps p).1 (segsEvs gs1 ++ g.pre)).days)
+                <:+ (ecoFinal eps (Loop.start eps p).1 (segsEvs gs ++ post)).days
+            ∧ ((ecoFinal eps (Loop.start eps p).1 (segsEvs gs1 ++ g.evs)).eco.filtration.duration
+                  ≤ p.dailyS * US + EcoConfig.pollDelayUs + eps →
+                min (p.dailyS * US) ((ecoFinal eps (Loop.start eps p).1 (segsEvs gs1 ++ g.evs)).eco.filtration.duration
+                      + ((ecoFinal eps (Loop.start eps p).1 (segsEvs gs1 ++ g.pre)).eco.nextReset
+                          - (ecoFinal eps (Loop.start eps p).1 (segsEvs gs1 ++ g.evs)).now))
+                    - slackPlan p.period eps
+                    + ((ecoFinal eps (Loop.start eps p).1 (segsEvs gs1 ++ g.evs)).onToday
+                        - (ecoFinal eps (Loop.start eps p).1 (segsEvs gs1 ++ g.evs)).eco.filtration.duration) ≤ r.on
+                ∧ r.on ≤ p.dailyS * US
+                    + ((ecoFinal eps (Loop.start eps p).1 (segsEvs gs1 ++ g.evs)).onToday
+                        - (ecoFinal eps (Loop.start eps p).1 (segsEvs gs1 ++ g.evs)).eco.filtration.duration)
+                    + (EcoConfig.pollDelayUs + EcoConfig.computeDelayUs + 6 * (p.period * eps) + 10 * eps)
+                ∧ r.on ≤ (ecoFinal eps (Loop.start eps p).1 (segsEvs gs1 ++ g.evs)).onToday
+                    + ((ecoFinal eps (Loop.start eps p).1 (segsEvs gs1 ++ g.pre)).eco.nextReset
+                        - (ecoFinal eps (Loop.start eps p).1 (segsEvs gs1 ++ g.evs)).now)
+                    + EcoConfig.computeDelayUs + EcoConfig.pollDelayUs + 2 * eps)
+            ∧ (p.dailyS * US ≤ (ecoFinal eps (Loop.start eps p).1 (segsEvs gs1 ++ g.evs)).eco.filtration.duration →
+                (ecoFinal eps (Loop.start eps p).1 (segsEvs gs1 ++ g.evs)).onToday ≤ r.on
+                ∧ r.on ≤ (ecoFinal eps (Loop.start eps p).1 (segsEvs gs1 ++ g.evs)).onToday + EcoConfig.computeDelayUs + eps)
+            ∧ ((ecoFinal eps (Loop.start eps p).1 (segsEvs gs1 ++ g.pre)).gPlain = true →
+                min (p.dailyS * US) DAY - slackLoHeat p.period eps ≤ r.on
+                ∧ r.on ≤ max (min (p.dailyS * US) DAY) (ecoFinal eps (Loop.start eps p).1 (segsEvs gs1 ++ g.evs)).onToday
+                    + slackHiHeat p.period eps)))
+    ∧ slackHi p.period eps ≤ slackLo p.period eps ∧ slackLo p.period eps < 180 * US
+    ∧ slackPlan p.period eps < 180 * US ∧ slackHiHeat p.period eps < 180 * US := by
+  obtain ⟨hseq, hrec⟩ := heat_days_start2 eps p gs post he he2 hd hp1 hp2 hel hs hok hpost
+  have hsl := slack_le_180 p.period eps he he2 hp1 hp2
+  obtain ⟨_, _, _, c4, _, c6, _, _⟩ := slack_heat_values p.period eps he he2 hp1 hp2
+  refine ⟨hseq, ?_, hsl.1, hsl.2.2.1, c4, c6⟩
+  intro r hr hfull
+  rcases hrec r hr with ⟨hpl, hb⟩ | ⟨gs1, g, gs2, h1, h2, hpl, hb⟩
+  · refine ⟨fun _ => hb hfull, fun hn => ?_⟩
+    rw [hpl] at hn; cases hn
+  · obtain ⟨⟨b1, b2⟩, b3⟩ := hb hfull
+    refine ⟨fun hp => ?_, fun _ => ⟨gs1, g, gs2, h1, h2, b1, b2, fun hg => ?_⟩⟩
+    · rw [hpl] at hp; cases hp
+    · obtain ⟨_, b4⟩ := b3 hg
+      obtain ⟨b5, b6, _⟩ := b4 hfull
+      exact ⟨b5, b6⟩
+
+/-- the hypotheses hold on a run with TWO interludes in one day (`miParams`, `miSeg1`, `miSeg2` in Proofs/EcoDayHeat4.lean:
+quota 7 h; the second `heat` arrives 3 s after the first poll of the eco_waiting that follows the first interlude); it is not
+a run with at most one interlude per day; when the second interlude ends 173.0042 s of pump-on time stand against 40.002 s
+accounted (`U` = 133 s; a third interlude brings it above 180 s) -/
+example : (0:Int) ≤ 1000 ∧ (1000:Int) ≤ 600000 ∧ 1 ≤ miParams.dailyS ∧ 1 ≤ miParams.period ∧ miParams.period ≤ 10
+    ∧ 0 ≤ miParams.elapsedS ∧ miParams.start < nextResetAt miParams.start miParams.resetHour
+    ∧ SegsOK2 1000 (Loop.start 1000 miParams).1 [miSeg1, miSeg2] ∧ (∀ e ∈ hdPost, TickOK 1000 e)
+    ∧ ¬ SegsOK 1000 (Loop.start 1000 miParams).1 [miSeg1, miSeg2]
+    ∧ (ecoFinal 1000 (Loop.start 1000 miParams).1 (segsEvs [miSeg1] ++ miSeg2.pre)).gPlain = false
+    ∧ (ecoFinal 1000 (Loop.start 1000 miParams).1 (segsEvs [miSeg1] ++ miSeg2.pre)).full = true
+    ∧ (ecoFinal 1000 (Loop.start 1000 miParams).1 (segsEvs [miSeg1] ++ miSeg2.evs)).onToday = 173004200
+    ∧ (ecoFinal 1000 (Loop.start 1000 miParams).1 (segsEvs [miSeg1] ++ miSeg2.evs)).eco.filtration.duration = 40002000 := by
+  decide
+
+set_option maxRecDepth 8192 in
+/-- The monitor form of the upper bound is FALSE for three interludes in one day (model witness; the lower bound and the
+bounds of `C10_quota_heating_days_multi_partial` hold on it).  Quota 600 s, one period, every handler on time; the pool enters
+eco at 23:59:50, the reset poll at 00:00:05 starts a whole day; three heating interludes of 20 s (+ the 60 s delay each) take
+place in the first 4.5 minutes: when the third one ends the pump has run 261 s, of which 60 s are accounted.  The plan made
+then schedules the remaining 540 s at the end of the day and carries them out: the pump-on time of the day is 796 s, more
+than `max quota (pump-on time at the end of the last interlude) + 180 s = 780 s` — each interlude leaves about 67 s of
+pump-on time unaccounted (the 60 s delay, the poll dropped at `heating_delay`, the compute delay), and the plan only looks at
+the accounted duration.  (`ceSegs`, `cePost` in Proofs/EcoDayHeat4.lean; the 8559 polls of the pause are executed
+symbolically by `wait_polls`, the rest is decided.) -/
+theorem C10_quota_monitor_upper_three_interludes_counterexample :
+    ∃ (p : Params) (gs : List Seg) (post : List Ev),
+      p.dailyS = 600 ∧ p.period = 1 ∧ gs.length = 3
+      ∧ SegsOK2 0 (Loop.start 0 p).1 gs ∧ (∀ e ∈ post, TickOK 0 e)
+      ∧ (ecoFinal 0 (Loop.start 0 p).1 (segsEvs gs)).days.length = 1
+      ∧ (ecoFinal 0 (Loop.start 0 p).1 (segsEvs gs)).full = true
+      ∧ (ecoFinal 0 (Loop.start 0 p).1 (segsEvs gs)).onToday = 261 * US
+      ∧ (ecoFinal 0 (Loop.start 0 p).1 (segsEvs gs)).eco.filtration.duration = 60 * US
+      ∧ ((ecoFinal 0 (Loop.start 0 p).1 (segsEvs gs ++ post)).days.map fun r => (r.on, r.full, r.plain))
+          = [(796 * US, true, false), (10 * US, false, true)]
+      ∧ 796 * US > max (min (p.dailyS * US) DAY) (ecoFinal 0 (Loop.start 0 p).1 (segsEvs gs)).onToday + 180 * US := by
+  refine ⟨ceParams, ceSegs, cePost, rfl, rfl, rfl, by decide, ce_post_ok, by decide, by decide, by decide, by decide, ?_, by decide⟩
+  have e1 : (Loop.start 0 ceParams).1 = ceStart := rfl
+  rw [e1, ce_final]
+  decide
+
+example : ceParams.dailyS = 600 ∧ (1 : Int) ≤ ceParams.period ∧ ceParams.period ≤ 10 ∧ 0 ≤ ceParams.elapsedS
+    ∧ ceParams.start < nextResetAt ceParams.start ceParams.resetHour ∧ TickOK 0 (.tick 0 0 0) ∧ ceSegs.length = 3 := by decide
+
+/-! ### (i) an interlude that spans the reset — not covered; why the day records cannot be used as they are
+
+`poll_heating_running` sees the reset like every other poll: the day is finished and a whole day starts with the pump running
+for the heating.  `roll` marks the new day `plain` (the ghost `gPlain` is only cleared by `heat`), so the record of a day that
+STARTS during an interlude claims "no interlude" although heating time counts in it: for runs with such an interlude the
+classification of the days by `DayRec.plain` used in sections (d), (g), (h) is not sound.  The theorems of (g), (h) exclude these
+runs (`SegOK`, `SegOK2`: the interlude is over before the reset); covering them needs a ghost that survives the reset. -/
+
+/-- Model witness: quota 1 s, every handler on time; eco is entered at 23:58:00, `heat` arrives at 23:58:06 and the heating
+lasts beyond midnight.  The poll of 00:00:06 sees the reset; 17 polls later the day that started there is a whole day, still
+flagged `plain`, the pump has run 170 s (160 s accounted: the first poll interval after a reset is not accounted) — far above
+the upper bound `min daily 24h + slackHi = 16 s` of a whole day without interlude. -/
+theorem C10_interlude_spanning_reset_plain_flag_counterexample :
+    ∃ (p : Params) (pre polls : List Ev) (dt : Int),
+      p.dailyS = 1 ∧ p.period = 8 ∧ (∀ e ∈ pre, TickOK 0 e) ∧ (∀ e ∈ polls, TickOK 0 e)
+      ∧ (ecoFinal 0 (Loop.start 0 p).1 pre).phase = .waiting
+      ∧ (ecoFinal 0 (Loop.start 0 p).1 pre).now + dt < (ecoFinal 0 (Loop.start 0 p).1 pre).eco.nextReset
+      ∧ (ecoFinal 0 (Loop.start 0 p).1 (pre ++ .heat dt :: polls)).phase = .heating
+      ∧ ((ecoFinal 0 (Loop.start 0 p).1 (pre ++ .heat dt :: polls)).days.map fun r => (r.on, r.full, r.plain))
+          = [(120 * US, false, false)]
+      ∧ (ecoFinal 0 (Loop.start 0 p).1 (pre ++ .heat dt :: polls)).full = true
+      ∧ (ecoFinal 0 (Loop.start 0 p).1 (pre ++ .heat dt :: polls)).gPlain = true
+      ∧ (ecoFinal 0 (Loop.start 0 p).1 (pre ++ .heat dt :: polls)).onToday = 170 * US
+      ∧ (ecoFinal 0 (Loop.start 0 p).1 (pre ++ .heat dt :: polls)).eco.filtration.duration = 160 * US
+      ∧ (ecoFinal 0 (Loop.start 0 p).1 (pre ++ .heat dt :: polls)).onToday > min (p.dailyS * US) DAY + slackHi p.period 0 := by
+  refine ⟨⟨1, 8, 0, 1, 0, 86280000000, 0⟩, [.tick 0 0 0, .tick 0 0 0], List.replicate 30 (.tick 0 0 0), 1000000, rfl, rfl,
+    by decide, by decide, by decide, by decide, by decide, by decide, by decide, by decide, by decide, by decide, by decide⟩
+
+example : (⟨1, 8, 0, 1, 0, 86280000000, 0⟩ : Params).start < nextResetAt 86280000000 0 ∧ slackHi 8 0 = 15 * US
+    ∧ TickOK 0 (.tick 0 0 0) := by decide
 
 end Poupool.Eco
